@@ -4459,6 +4459,12 @@ class EntityMeta(type):
                     cache.seeds[pk_attrs].add(obj)
                 elif status == 'created':
                     assert undo_funcs is not None
+                    def undo_func():  # if object creation fails later, the object should not remain in the identity map
+                        cache.objects.discard(obj)
+                        cache.for_update.discard(obj)
+                        if pkval is not None and cache_index.get(pkval) is obj: del cache_index[pkval]
+                        obj._status_ = 'cancelled'
+                    undo_funcs.append(undo_func)
                     obj._rbits_ = obj._wbits_ = None
                     for attr, val in pairs:
                         obj._vals_[attr] = val
